@@ -228,6 +228,7 @@ def oracle(r, consts):
     results = {}
     pay_of = {}
     prev_outstanding = None
+    wire_out = None
     told = 0
     started, finished = set(), set()
     was_failed = False
@@ -253,6 +254,13 @@ def oracle(r, consts):
             failed_after = None
         is_rstack = any(x[0] == "K" for x in fs_)
         n_rstack = sum(1 for x in fs_ if x[0] == "K")
+        # the wire's own view of "outstanding": a DATA frame is unacknowledged from its first transmission until a frame
+        # whose acknowledgement number covers it arrives, or the link fails / is reset (nothing is retransmitted then)
+        if wire_out is not None:
+            wfr = sends[wire_out]["frm"]
+            if any(x[0] in "AND" and int(x.split(":")[3]) == (wfr + 1) % 8 for x in fs_) or is_rstack or is_failed or \
+                    any(e[0] == "R" for e in entries):
+                wire_out = None
         if outstanding is not None:
             fr = sends[outstanding]["frm"]
             cov_here = any(x[0] in "AND" and int(x.split(":")[3]) == (fr + 1) % 8 for x in fs_)
@@ -278,8 +286,12 @@ def oracle(r, consts):
                         return f"first transmission of {ph} carries the retransmit flag"
                     if expect_frm is not None and frm != expect_frm:
                         return f"frame numbers not consecutive: {ph} numbered {frm}, expected {expect_frm}"
+                    if wire_out is not None:
+                        return (f"DATA frame {ph} (number {frm}) written while frame {sends[wire_out]['frm']} ({wire_out}) is still unacknowledged: "
+                                f"more than one DATA frame outstanding (event {ev})")
                     sends[ph] = s = {"frm": frm, "writes": [now], "cause": []}
                     outstanding = ph
+                    wire_out = ph
                     expect_frm = (frm + 1) % 8
                 else:
                     if not retx:
@@ -315,6 +327,12 @@ def oracle(r, consts):
                         outstanding = None
                 if res.startswith("!"):
                     return f"send {ph} ended with unexpected exception {res}"
+                if res in ("nak", "timeout"):
+                    # a send gives up only when its budget is exhausted: that fails the link, and the upper layer is told why
+                    told_now = [int(x[1:]) for x in entries if x[0] == "R"]
+                    if not is_failed or 81 not in told_now:
+                        return (f"send {ph} gave up ({res}) after {len(sends.get(ph, {}).get('writes', []))} transmissions on event {ev}, but the link was not "
+                                f"failed / the upper layer was not told (failed={int(is_failed)}, told {told_now})")
                 if res == "ok":
                     s = sends.get(ph)
                     if s is None:
